@@ -235,7 +235,7 @@ def add_locality(reqs, rng, p=0.03):
         idx = [i for i, t in enumerate(toks) if _DTOK.match(t)]
         if not idx:
             continue
-        k = rng.randrange(6)
+        k = rng.randrange(8)
         if k == 0:
             out.append(r)
             continue
@@ -251,6 +251,14 @@ def add_locality(reqs, rng, p=0.03):
             c2, s2 = -c, s
         elif k == 4:
             c2, s2 = c * 10, s + 1
+        elif k == 5:
+            # one of the top bits flipped (a key that drops the high bits of the coefficient)
+            a = abs(c) ^ (1 << rng.randrange(112, 127))
+            c2, s2 = (a if c >= 0 else -a), s
+        elif k == 6:
+            # any single bit flipped
+            a = abs(c) ^ (1 << rng.randrange(0, 127))
+            c2, s2 = (a if c >= 0 else -a), s
         else:
             c2, s2 = c + rng.choice((1, -1)), s
         if not (0 <= s2 <= 18 and abs(c2) <= M):
